@@ -203,6 +203,44 @@ Theorem v2_switch_fields_match_methods v s : v2_slot v = Some s -> slot_verb s =
 Proof. exact (v2_sound v s). Qed.
 Print Assumptions v2_switch_fields_match_methods.
 
+(* ---- openapi:generate=false ---- *)
+
+(* A design whose services, endpoints and file servers may be marked with
+   Meta("openapi:generate", "false"): the server mounts `mounted m` (everything), both
+   documents are built from `visible m` (what is not marked). Every theorem above, read
+   with d := visible m, is a statement about the documents of m; the theorems below
+   relate them to what the server really mounts. *)
+
+(* the mount table is the visible operations plus the marked ones, nothing else *)
+Theorem mounted_is_visible_plus_hidden m o :
+  In o (server_ops (mounted m)) <-> In o (server_ops (visible m)) \/ In o (server_ops (hidden m)).
+Proof. exact (mounted_split m o). Qed.
+Print Assumptions mounted_is_visible_plus_hidden.
+
+(* with no hypothesis: whatever either document lists is mounted *)
+Theorem marked_doc_ops_subset_mounted m v k :
+  In (v, k) (map okey (doc3_ops (visible m))) -> In (v, k) (map nkey (server_ops (mounted m))).
+Proof. exact (mdoc3_sub m v k). Qed.
+Print Assumptions marked_doc_ops_subset_mounted.
+
+Theorem marked_doc2_ops_subset_mounted m v k :
+  In (v, k) (map okey (doc2_ops (visible m))) -> In (v, k) (map nkey (server_ops (mounted m))).
+Proof. exact (mdoc2_sub m v k). Qed.
+Print Assumptions marked_doc2_ops_subset_mounted.
+
+(* a mounted operation that the OpenAPI 3 document does not list is marked (or uses a
+   verb the switch has no case for): marking is the only way to leave an operation out *)
+Theorem marked_missing_only_if_marked m v k : no_wild_files (visible m) ->
+  In (v, k) (map nkey (server_ops (mounted m))) -> ~ In (v, k) (map okey (doc3_ops (visible m))) ->
+  In (v, k) (map nkey (server_ops (hidden m))) \/ v3_slot v = None.
+Proof. exact (mdoc3_missing m v k). Qed.
+Print Assumptions marked_missing_only_if_marked.
+
+(* nothing marked: the documents are built from the whole mount table *)
+Theorem unmarked_visible_is_mounted m : unmarked m -> visible m = mounted m.
+Proof. exact (unmarked_visible m). Qed.
+Print Assumptions unmarked_visible_is_mounted.
+
 (* ---- non-vacuity ---- *)
 
 (* a design with path, query, header, cookie parameters, a wildcard route, two routes on
@@ -219,3 +257,10 @@ Example good_listing :
   map (fun o => length (oparams o)) (doc3_ops good) = [5; 5; 0; 0]%nat /\
   map (fun o => length (oparams o)) (server_ops good) = [6; 6; 0; 0]%nat.
 Proof. vm_compute. repeat split. Qed.
+
+Example marked_endpoint_left_out :
+  In (POST, [Lit 2]) (map nkey (server_ops (mounted w_marked))) /\
+  ~ In (POST, [Lit 2]) (map okey (doc3_ops (visible w_marked))) /\ ~ In (POST, [Lit 2]) (map okey (doc2_ops (visible w_marked))) /\
+  In (POST, [Lit 2]) (map nkey (server_ops (hidden w_marked))) /\
+  In (GET, [Lit 1]) (map okey (doc3_ops (visible w_marked))).
+Proof. exact marked_example. Qed.
